@@ -6,6 +6,8 @@ Model: `Gen/Transpose.lean`, regenerated from `cfavml-gemm/src/transpose/{mod,im
 hand-written glue `Hand/TransposeGlue.lean` that says which export stands behind the two `transmute`d views.
 -/
 import CfavmlModel.Lemmas.Transpose
+import CfavmlModel.Lemmas.GenericTranspose
+import CfavmlModel.Thm.C13X86
 
 namespace Cfavml.Thm.C15
 open X86
@@ -272,6 +274,217 @@ theorem transpose_matrix_panics (E : Env) (ty : RTy) (e1 e2 : Nat → Nat → Sl
     rfl
 
 end
+
+/-! ### the AVX2 implementations meet the block contract, hence the AVX2 routines are exact for every shape -/
+
+theorem setRange_get {α : Type} (s : Slice α) (i n : Nat) (f : Nat → α) (j : Nat) :
+    (s.setRange i n f).get j = if i ≤ j ∧ j < i + n then f (j - i) else s.get j := rfl
+theorem setRange_size {α : Type} (s : Slice α) (i n : Nat) (f : Nat → α) : (s.setRange i n f).size = s.size := rfl
+
+/-- **`impl TransposeMatrix<f32> for Avx2`** meets the block contract with `N = 8` -/
+theorem avx2_f32_faithful (E : Env) :
+    TransposeFaithful (Avx2_f32.inst E) (Avx2_f32.transposeInst E) 8 (fun m r c => xlanes 32 (m.nth r) c) where
+  N_pos := by decide
+  N_small := by decide
+  epl := (C13X86.Avx2_f32.mem E).epl
+  load_ok := by
+    intro data off width hw hr
+    have MF := C13X86.Avx2_f32.mem E
+    have m1 : width * 1 < usizeMod := by omega
+    have m2 : width * 2 < usizeMod := by omega
+    have m3 : width * 3 < usizeMod := by omega
+    have m4 : width * 4 < usizeMod := by omega
+    have m5 : width * 5 < usizeMod := by omega
+    have m6 : width * 6 < usizeMod := by omega
+    have m7 : width * 7 < usizeMod := by omega
+    obtain ⟨r0, e0, h0⟩ := MF.load_ok data (0 + off) (by omega)
+    obtain ⟨r1, e1, h1⟩ := MF.load_ok data (0 + (off + width * 1)) (by omega)
+    obtain ⟨r2, e2, h2⟩ := MF.load_ok data (0 + (off + width * 2)) (by omega)
+    obtain ⟨r3, e3, h3⟩ := MF.load_ok data (0 + (off + width * 3)) (by omega)
+    obtain ⟨r4, e4, h4⟩ := MF.load_ok data (0 + (off + width * 4)) (by omega)
+    obtain ⟨r5, e5, h5⟩ := MF.load_ok data (0 + (off + width * 5)) (by omega)
+    obtain ⟨r6, e6, h6⟩ := MF.load_ok data (0 + (off + width * 6)) (by omega)
+    obtain ⟨r7, e7, h7⟩ := MF.load_ok data (0 + (off + width * 7)) (by omega)
+    refine ⟨⟨r0, r1, r2, r3, r4, r5, r6, r7⟩, ?_, ?_⟩
+    · show Avx2_f32.load_matrix E off width data 0 = _
+      unfold Avx2_f32.load_matrix
+      rw [umul_ok E _ _ m1, umul_ok E _ _ m2, umul_ok E _ _ m3, umul_ok E _ _ m4, umul_ok E _ _ m5, umul_ok E _ _ m6, umul_ok E _ _ m7]
+      simp only [pure_bind]
+      rw [show Avx2_f32.load E = (Avx2_f32.inst E).load from rfl, e0, e1, e2, e3, e4, e5, e6, e7]
+      rfl
+    · intro r c hr' hc
+      have hr'' : r = 0 ∨ r = 1 ∨ r = 2 ∨ r = 3 ∨ r = 4 ∨ r = 5 ∨ r = 6 ∨ r = 7 := by omega
+      rcases hr'' with rfl | rfl | rfl | rfl | rfl | rfl | rfl | rfl
+      · show xlanes 32 r0 c = _; rw [h0 c hc]; congr 1; omega
+      · show xlanes 32 r1 c = _; rw [h1 c hc]; congr 1; omega
+      · show xlanes 32 r2 c = _; rw [h2 c hc]; congr 1; omega
+      · show xlanes 32 r3 c = _; rw [h3 c hc]; congr 1; omega
+      · show xlanes 32 r4 c = _; rw [h4 c hc]; congr 1; omega
+      · show xlanes 32 r5 c = _; rw [h5 c hc]; congr 1; omega
+      · show xlanes 32 r6 c = _; rw [h6 c hc]; congr 1; omega
+      · show xlanes 32 r7 c = _; rw [h7 c hc]; congr 1; omega
+  transpose_ok := by
+    intro m
+    obtain ⟨t, e, h⟩ := reg8x8_transpose E m
+    exact ⟨t, e, fun r c hr hc => h r c hr hc⟩
+  write_ok := by
+    intro res off height m hNh hh hr
+    have MF := C13X86.Avx2_f32.mem E
+    have m1 : 1 * height < usizeMod := by omega
+    have m2 : 2 * height < usizeMod := by omega
+    have m3 : 3 * height < usizeMod := by omega
+    have m4 : 4 * height < usizeMod := by omega
+    have m5 : 5 * height < usizeMod := by omega
+    have m6 : 6 * height < usizeMod := by omega
+    have m7 : 7 * height < usizeMod := by omega
+    refine ⟨(((((((res.setRange (0 + off) 8 (xlanes 32 m.a)).setRange (0 + (off + 1 * height)) 8 (xlanes 32 m.b)).setRange (0 + (off + 2 * height)) 8 (xlanes 32 m.c)).setRange (0 + (off + 3 * height)) 8 (xlanes 32 m.d)).setRange (0 + (off + 4 * height)) 8 (xlanes 32 m.e)).setRange (0 + (off + 5 * height)) 8 (xlanes 32 m.f)).setRange (0 + (off + 6 * height)) 8 (xlanes 32 m.g)).setRange (0 + (off + 7 * height)) 8 (xlanes 32 m.h), ?_, rfl, ?_, ?_⟩
+    · show Avx2_f32.write_matrix E off height m res 0 = _
+      unfold Avx2_f32.write_matrix
+      rw [umul_ok E _ _ m1, umul_ok E _ _ m2, umul_ok E _ _ m3, umul_ok E _ _ m4, umul_ok E _ _ m5, umul_ok E _ _ m6, umul_ok E _ _ m7]
+      simp only [pure_bind]
+      rw [show Avx2_f32.write E = (Avx2_f32.inst E).write from rfl]
+      rw [MF.write_ok res _ m.a (by omega)]; simp only [pure_bind]
+      rw [MF.write_ok _ _ m.b (by simp only [setRange_size]; omega)]; simp only [pure_bind]
+      rw [MF.write_ok _ _ m.c (by simp only [setRange_size]; omega)]; simp only [pure_bind]
+      rw [MF.write_ok _ _ m.d (by simp only [setRange_size]; omega)]; simp only [pure_bind]
+      rw [MF.write_ok _ _ m.e (by simp only [setRange_size]; omega)]; simp only [pure_bind]
+      rw [MF.write_ok _ _ m.f (by simp only [setRange_size]; omega)]; simp only [pure_bind]
+      rw [MF.write_ok _ _ m.g (by simp only [setRange_size]; omega)]; simp only [pure_bind]
+      rw [MF.write_ok _ _ m.h (by simp only [setRange_size]; omega)]
+    · intro r c hr' hc
+      have hr'' : r = 0 ∨ r = 1 ∨ r = 2 ∨ r = 3 ∨ r = 4 ∨ r = 5 ∨ r = 6 ∨ r = 7 := by omega
+      simp only [setRange_get]
+      rcases hr'' with rfl | rfl | rfl | rfl | rfl | rfl | rfl | rfl
+      · rw [if_neg (by omega), if_neg (by omega), if_neg (by omega), if_neg (by omega), if_neg (by omega), if_neg (by omega), if_neg (by omega), if_pos (by omega)]
+        show xlanes 32 m.a _ = xlanes 32 m.a c; congr 1; omega
+      · rw [if_neg (by omega), if_neg (by omega), if_neg (by omega), if_neg (by omega), if_neg (by omega), if_neg (by omega), if_pos (by omega)]
+        show xlanes 32 m.b _ = xlanes 32 m.b c; congr 1; omega
+      · rw [if_neg (by omega), if_neg (by omega), if_neg (by omega), if_neg (by omega), if_neg (by omega), if_pos (by omega)]
+        show xlanes 32 m.c _ = xlanes 32 m.c c; congr 1; omega
+      · rw [if_neg (by omega), if_neg (by omega), if_neg (by omega), if_neg (by omega), if_pos (by omega)]
+        show xlanes 32 m.d _ = xlanes 32 m.d c; congr 1; omega
+      · rw [if_neg (by omega), if_neg (by omega), if_neg (by omega), if_pos (by omega)]
+        show xlanes 32 m.e _ = xlanes 32 m.e c; congr 1; omega
+      · rw [if_neg (by omega), if_neg (by omega), if_pos (by omega)]
+        show xlanes 32 m.f _ = xlanes 32 m.f c; congr 1; omega
+      · rw [if_neg (by omega), if_pos (by omega)]
+        show xlanes 32 m.g _ = xlanes 32 m.g c; congr 1; omega
+      · rw [if_pos (by omega)]
+        show xlanes 32 m.h _ = xlanes 32 m.h c; congr 1; omega
+    · intro k hk
+      simp only [setRange_get]
+      rw [if_neg (by intro ⟨x1, x2⟩; exact hk 7 (k - (off + 7 * height)) (by omega) (by omega) (by omega)),
+        if_neg (by intro ⟨x1, x2⟩; exact hk 6 (k - (off + 6 * height)) (by omega) (by omega) (by omega)),
+        if_neg (by intro ⟨x1, x2⟩; exact hk 5 (k - (off + 5 * height)) (by omega) (by omega) (by omega)),
+        if_neg (by intro ⟨x1, x2⟩; exact hk 4 (k - (off + 4 * height)) (by omega) (by omega) (by omega)),
+        if_neg (by intro ⟨x1, x2⟩; exact hk 3 (k - (off + 3 * height)) (by omega) (by omega) (by omega)),
+        if_neg (by intro ⟨x1, x2⟩; exact hk 2 (k - (off + 2 * height)) (by omega) (by omega) (by omega)),
+        if_neg (by intro ⟨x1, x2⟩; exact hk 1 (k - (off + 1 * height)) (by omega) (by omega) (by omega)),
+        if_neg (by intro ⟨x1, x2⟩; exact hk 0 (k - off) (by omega) (by omega) (by omega))]
+
+/-- **`impl TransposeMatrix<f64> for Avx2`** meets the block contract with `N = 4` -/
+theorem avx2_f64_faithful (E : Env) :
+    TransposeFaithful (Avx2_f64.inst E) (Avx2_f64.transposeInst E) 4 (fun m r c => xlanes 64 (m.nth r) c) where
+  N_pos := by decide
+  N_small := by decide
+  epl := (C13X86.Avx2_f64.mem E).epl
+  load_ok := by
+    intro data off width hw hr
+    have MF := C13X86.Avx2_f64.mem E
+    have m1 : width * 1 < usizeMod := by omega
+    have m2 : width * 2 < usizeMod := by omega
+    have m3 : width * 3 < usizeMod := by omega
+    obtain ⟨r0, e0, h0⟩ := MF.load_ok data (0 + off) (by omega)
+    obtain ⟨r1, e1, h1⟩ := MF.load_ok data (0 + (off + width * 1)) (by omega)
+    obtain ⟨r2, e2, h2⟩ := MF.load_ok data (0 + (off + width * 2)) (by omega)
+    obtain ⟨r3, e3, h3⟩ := MF.load_ok data (0 + (off + width * 3)) (by omega)
+    refine ⟨⟨r0, r1, r2, r3⟩, ?_, ?_⟩
+    · show Avx2_f64.load_matrix E off width data 0 = _
+      unfold Avx2_f64.load_matrix
+      rw [umul_ok E _ _ m1, umul_ok E _ _ m2, umul_ok E _ _ m3]
+      simp only [pure_bind]
+      rw [show Avx2_f64.load E = (Avx2_f64.inst E).load from rfl, e0, e1, e2, e3]
+      rfl
+    · intro r c hr' hc
+      have hr'' : r = 0 ∨ r = 1 ∨ r = 2 ∨ r = 3 := by omega
+      rcases hr'' with rfl | rfl | rfl | rfl
+      · show xlanes 64 r0 c = _; rw [h0 c hc]; congr 1; omega
+      · show xlanes 64 r1 c = _; rw [h1 c hc]; congr 1; omega
+      · show xlanes 64 r2 c = _; rw [h2 c hc]; congr 1; omega
+      · show xlanes 64 r3 c = _; rw [h3 c hc]; congr 1; omega
+  transpose_ok := by
+    intro m
+    obtain ⟨t, e, h⟩ := reg4x4_transpose E m
+    exact ⟨t, e, fun r c hr hc => h r c hr hc⟩
+  write_ok := by
+    intro res off height m hNh hh hr
+    have MF := C13X86.Avx2_f64.mem E
+    have m1 : 1 * height < usizeMod := by omega
+    have m2 : 2 * height < usizeMod := by omega
+    have m3 : 3 * height < usizeMod := by omega
+    refine ⟨(((res.setRange (0 + off) 4 (xlanes 64 m.a)).setRange (0 + (off + 1 * height)) 4 (xlanes 64 m.b)).setRange (0 + (off + 2 * height)) 4 (xlanes 64 m.c)).setRange (0 + (off + 3 * height)) 4 (xlanes 64 m.d), ?_, rfl, ?_, ?_⟩
+    · show Avx2_f64.write_matrix E off height m res 0 = _
+      unfold Avx2_f64.write_matrix
+      rw [umul_ok E _ _ m1, umul_ok E _ _ m2, umul_ok E _ _ m3]
+      simp only [pure_bind]
+      rw [show Avx2_f64.write E = (Avx2_f64.inst E).write from rfl]
+      rw [MF.write_ok res _ m.a (by omega)]; simp only [pure_bind]
+      rw [MF.write_ok _ _ m.b (by simp only [setRange_size]; omega)]; simp only [pure_bind]
+      rw [MF.write_ok _ _ m.c (by simp only [setRange_size]; omega)]; simp only [pure_bind]
+      rw [MF.write_ok _ _ m.d (by simp only [setRange_size]; omega)]
+    · intro r c hr' hc
+      have hr'' : r = 0 ∨ r = 1 ∨ r = 2 ∨ r = 3 := by omega
+      simp only [setRange_get]
+      rcases hr'' with rfl | rfl | rfl | rfl
+      · rw [if_neg (by omega), if_neg (by omega), if_neg (by omega), if_pos (by omega)]
+        show xlanes 64 m.a _ = xlanes 64 m.a c; congr 1; omega
+      · rw [if_neg (by omega), if_neg (by omega), if_pos (by omega)]
+        show xlanes 64 m.b _ = xlanes 64 m.b c; congr 1; omega
+      · rw [if_neg (by omega), if_pos (by omega)]
+        show xlanes 64 m.c _ = xlanes 64 m.c c; congr 1; omega
+      · rw [if_pos (by omega)]
+        show xlanes 64 m.d _ = xlanes 64 m.d c; congr 1; omega
+    · intro k hk
+      simp only [setRange_get]
+      rw [if_neg (by intro ⟨x1, x2⟩; exact hk 3 (k - (off + 3 * height)) (by omega) (by omega) (by omega)),
+        if_neg (by intro ⟨x1, x2⟩; exact hk 2 (k - (off + 2 * height)) (by omega) (by omega) (by omega)),
+        if_neg (by intro ⟨x1, x2⟩; exact hk 1 (k - (off + 1 * height)) (by omega) (by omega) (by omega)),
+        if_neg (by intro ⟨x1, x2⟩; exact hk 0 (k - off) (by omega) (by omega) (by omega))]
+
+/-- `f32_xany_avx2_nofma_transpose` (also used for `u32`): exact transpose, every shape -/
+theorem f32_avx2_transpose_spec (E : Env) (w h : Nat) (data result : Slice F32) (hfw : w < E.fuel) (hfh : h < E.fuel)
+    (hwh : w * h < usizeMod) (hd : data.size = w * h) (hr : result.size = data.size) :
+    ∃ res', f32_xany_avx2_nofma_transpose E w h data result = pure res' ∧ IsTranspose w h data res' := by
+  obtain ⟨res', e, ht⟩ := generic_transpose_spec (E := E) (avx2_f32_faithful E) w h data result hfw hfh hwh hd hr
+  exact ⟨res', by unfold f32_xany_avx2_nofma_transpose; rw [e], ht⟩
+
+/-- `f64_xany_avx2_nofma_transpose` (also used for `u64`): exact transpose, every shape -/
+theorem f64_avx2_transpose_spec (E : Env) (w h : Nat) (data result : Slice F64) (hfw : w < E.fuel) (hfh : h < E.fuel)
+    (hwh : w * h < usizeMod) (hd : data.size = w * h) (hr : result.size = data.size) :
+    ∃ res', f64_xany_avx2_nofma_transpose E w h data result = pure res' ∧ IsTranspose w h data res' := by
+  obtain ⟨res', e, ht⟩ := generic_transpose_spec (E := E) (avx2_f64_faithful E) w h data result hfw hfh hwh hd hr
+  exact ⟨res', by unfold f64_xany_avx2_nofma_transpose; rw [e], ht⟩
+
+/-- **C15 for every 4-byte element type, every CPU**: `transpose_matrix::<T>` for `T` of 4 bytes (f32/u32 through
+AVX2 when available, everything else through the naive loop) returns the exact transpose -/
+theorem transpose_b32_spec (E : Env) (ty : RTy) (w h : Nat) (data result : Slice (BitVec 32))
+    (hfw : w < E.fuel) (hfh : h < E.fuel) (hty : TyOk32 ty)
+    (hwh : w * h < usizeMod) (hd : data.size = w * h) (hr : result.size = data.size) :
+    ∃ res', transpose_matrix_b32 E ty w h data result = pure res' ∧ IsTranspose w h data res' :=
+  transpose_matrix_spec E ty _ _ w h data result hfw hfh
+    (fun _ _ d r hd' hr' => f32_avx2_transpose_spec E w h d r hfw hfh hwh hd' (hr'.trans hd'.symm))
+    (by intro x; rcases hty with e | e | e <;> subst e <;> rcases x with x | x <;> cases x)
+    hwh hd hr
+
+/-- **C15 for every 8-byte element type, every CPU** -/
+theorem transpose_b64_spec (E : Env) (ty : RTy) (w h : Nat) (data result : Slice (BitVec 64))
+    (hfw : w < E.fuel) (hfh : h < E.fuel) (hty : TyOk64 ty)
+    (hwh : w * h < usizeMod) (hd : data.size = w * h) (hr : result.size = data.size) :
+    ∃ res', transpose_matrix_b64 E ty w h data result = pure res' ∧ IsTranspose w h data res' :=
+  transpose_matrix_spec E ty _ _ w h data result hfw hfh
+    (by intro x; rcases hty with e | e | e <;> subst e <;> rcases x with x | x <;> cases x)
+    (fun _ _ d r hd' hr' => f64_avx2_transpose_spec E w h d r hfw hfh hwh hd' (hr'.trans hd'.symm))
+    hwh hd hr
 
 /-! ### instances -/
 
